@@ -1223,6 +1223,49 @@ fn layout_fp_mirror(c: &Case, exp: &[Exp]) -> Result<(), String> {
     }
 }
 
+/// the same tie for every architecture with the frame-pointer technique (not Windows x86-64): the
+/// generator's parameters are recovered from the case, the model evaluates `gfpWords` / `gfpChain`
+/// (MdModel/Walk/LayoutGen.lean; `preFp` of them is a theorem: `preFp_layout_arch`) and stack bytes,
+/// stack pointer, frame pointer and chain are compared
+fn layout_fpg_mirror(c: &Case, exp: &[Exp]) -> Result<(), String> {
+    let p = ptr_of(&c.arch);
+    let (base, bytes) = c.stack.as_ref().ok_or("no stack")?;
+    let reg = |n: &str| c.regs.iter().find(|(k, _)| k == n).map(|x| x.1);
+    let (sp, fp) = (reg(sp_name(&c.arch)).ok_or("no sp")?, reg(fp_name(&c.arch)).ok_or("no fp")?);
+    let idx = |a: u64| -> Result<u64, String> {
+        let off = a.checked_sub(*base).ok_or(format!("address {a} below the stack"))?;
+        if off % p != 0 {
+            return Err(format!("address {a} is not word-aligned"));
+        }
+        Ok(off / p)
+    };
+    let (s0, f0) = (idx(sp)?, idx(fp)?);
+    let mut f = f0;
+    let mut calls = vec![];
+    for e in exp {
+        let esp = idx(e.sp)?;
+        let nf = idx(e.fp.ok_or("frame without frame pointer")?)?;
+        if esp != f + 2 || nf < esp {
+            return Err(format!("frame at word {f}: sp word {esp}, next record word {nf}"));
+        }
+        calls.push(format!("{}:{}", nf - esp, e.ret));
+        f = nf;
+    }
+    let nwords = bytes.len() as u64 / p;
+    let tail = nwords.checked_sub(f + 3).ok_or("stack ends inside the outermost record")?;
+    let req = format!("chain layout fpg {} {base} {s0} {f0} {tail} {}", c.arch, if calls.is_empty() { "-".to_string() } else { calls.join(",") });
+    let want = format!(
+        "sp={sp} fp={fp} stack:{} exp:{}",
+        hex(bytes),
+        exp.iter().map(|e| format!("{},{},{}", e.ret, e.sp, e.fp.map(|x| x.to_string()).unwrap_or("-".into()))).collect::<Vec<_>>().join("|")
+    );
+    match ask_model(&req) {
+        None => Ok(()),
+        Some(got) if got == want => Ok(()),
+        Some(got) => Err(format!("layout({req}) = {} expected {}", &got[..got.len().min(300)], &want[..want.len().min(300)])),
+    }
+}
+
 fn want_trust(tech: &str) -> FrameTrust {
     match tech {
         "fp" => FrameTrust::FramePointer,
@@ -1376,6 +1419,14 @@ impl Engine for Chain {
         if tech == "fp" && c.arch == "amd64" && c.os != "windows" {
             match layout_fp_mirror(&c, &exp) {
                 Ok(()) => res.tags.push("layout-tied:fp-amd64".into()),
+                Err(msg) => res.oracle.push(("layout-not-mirrored".into(), msg)),
+            }
+        }
+        // every architecture with the technique (x86, x86-64 not Windows, ARM iOS, ARM64 both layouts):
+        // the generic layout function, `preFp_layout_arch` / `walk_layout_fp_generated_arch` (C04Gen.lean)
+        if tech == "fp" && !(c.arch == "amd64" && c.os == "windows") {
+            match layout_fpg_mirror(&c, &exp) {
+                Ok(()) => res.tags.push(format!("layout-tied:fpg-{}", c.arch)),
                 Err(msg) => res.oracle.push(("layout-not-mirrored".into(), msg)),
             }
         }
